@@ -81,6 +81,12 @@ func (this *NodesManager) tryJoin(ctx context.Context, address string) error {
 		if err != nil {
 			return err
 		}
+		if this.zeroGroup.StartedWithDurableState() {
+			// A restarted member recovers its address book from its own log and
+			// snapshot; the list of the member it happens to ask may lag behind
+			// (and would bring back a node whose removal was already applied here).
+			continue
+		}
 		this.clusterConn.AddNode(node.GetId(), node.GetAddress())
 	}
 	return nil
